@@ -213,6 +213,13 @@ def refineReadyFailures (P : Refinement.Params) (x : Refinement.PixIn) : List St
   ++ (if onGridPixB P x then [] else ["off_sample_grid"])
   ++ (if P.variant.fixOr || Refinement.bitAt x.flag 3 == 0 then [] else ["bit3_already_set"])
 
+/-- the flag words of the disparity step mark as invalid every pixel without any numeric cost -/
+def flagsCoverB (x : MC.Input) (better : MC.Cell → MC.Cell → Bool) (flags : Nat → Nat → Nat) : Bool :=
+  (List.range x.L.rows).all fun r => (List.range x.L.cols).all fun c =>
+    (IntervalWta.wta better (fun j => MC.costVolume x (r : Int) (c : Int) j)
+      (MC.nDisp (MC.gridMin x.dminG x.L.rows x.L.cols) (MC.gridMax x.dmaxG x.L.rows x.L.cols) x.sp)).isSome
+    || Flags.isInvalid (flags r c)
+
 /-- the other map of a cross-checking has one row per row of the map -/
 def otherShapeOK (other : Grid Val) (m : DMap) : Bool := decide (m.rows ≤ other.length)
 
